@@ -17,6 +17,8 @@ pub fn main(args: &[String]) {
     let outp = arg_after(args, "--out").expect("--out");
     let path = arg_after(args, "--cases").expect("--cases");
     let every: u64 = arg_after(args, "--every").map(|s| s.parse().unwrap()).unwrap_or(1);
+    // every sequence is judged here; one in `--trace-every` is also written to the trace
+    let trace_every: u64 = arg_after(args, "--trace-every").map(|s| s.parse().unwrap()).unwrap_or(1);
     let mut rep = Report::default();
     let mut ev: Vec<Value> = vec![];
     let mut k = 0u64;
@@ -30,7 +32,8 @@ pub fn main(args: &[String]) {
         let ops = c["ops"].as_array().unwrap().clone();
         let want = &c["expected"];
         let r = guarded(|| -> (Vec<u8>, u16, Vec<i64>) {
-            let mut s = Serializer::new(400_000);
+            let need: usize = ops.iter().filter(|o| o["op"] == "embed").map(|o| o["n"].as_u64().unwrap() as usize).sum();
+            let mut s = Serializer::new(need + 64);
             let _ = s.start_serialize();
             let mut rets = vec![];
             // buffer position at which each open object starts (the root at 0)
@@ -88,7 +91,9 @@ pub fn main(args: &[String]) {
                     rep.sample(json!({"ops": c["ops"], "model": want_err, "real": got_err}));
                 }
             }
-            ev.push(json!({"op": "serializer", "outcome": "error"}));
+            if k % trace_every == 0 {
+                ev.push(json!({"op": "serializer", "outcome": "error"}));
+            }
             rep.distinct += 1;
             return;
         }
@@ -123,7 +128,9 @@ pub fn main(args: &[String]) {
         if !exact {
             rep.add("layout_differs", 1);
         }
-        ev.push(json!({"op": "serializer", "outcome": "value"}));
+        if k % trace_every == 0 {
+            ev.push(json!({"op": "serializer", "outcome": "value"}));
+        }
         rep.distinct += 1;
     });
     rep.traces = ev.len() as u64;
